@@ -41,7 +41,7 @@ ASSUMPTIONS = ['a trailing slash may either count as a present empty segment or 
                'items containing a single quote are double-quoted too; white space, backslashes outside quotes and '
                'escapes other than \\\\ and \\" are DONT-CARE for split_by_commas']
 INTERPRETER_FLAGS = [[], ['-O'], ['-X', 'dev'], ['-bb']]
-CONCURRENT = lambda case: case.get('kind') != 'twins' and case.get('cls') != 'long'         # pure functions of their arguments; see vlib/concurrent.py
+CONCURRENT = lambda case: case.get('kind') not in ('twins', 'starved') and case.get('cls') != 'long'         # pure functions of their arguments; see vlib/concurrent.py
 SHARDS = {'quick': 4, 'thorough': 16}
 
 SEG_CLASSES = ['plain', 'empty', 'dot', 'dotdot', 'spaced', 'unicode']
@@ -392,9 +392,30 @@ def _evaluate_modes(ctx, case):
     return _evaluate(ctx, case)
 
 
+def eval_starved(ctx, case):
+    """A well-formed value split from a call depth close to the interpreter's recursion limit (a deeply nested caller):
+    the items come back, or RecursionError does - ValueError is reserved for malformed values."""
+    from oslo_utils import strutils
+    from vlib import envmodes
+    items = case['items']
+    text = join_items(items)
+    strutils.split_by_commas('warm,up')            # (the deferred import of pyparsing has happened before the squeeze)
+    got, exc = envmodes.call_at_depth(lambda: strutils.split_by_commas(text), case['headroom'])
+    ctx.case(('starved', text, case['headroom']))
+    ctx.clause('commas-under-recursion-pressure')
+    ctx.h('split_by_commas near the recursion limit', 'RecursionError' if isinstance(exc, RecursionError) else
+          ('answered' if exc is None else type(exc).__name__))
+    if isinstance(exc, RecursionError):
+        return
+    if exc is not None or got != items:
+        ctx.fail('commas-under-recursion-pressure', case, {'text': text, 'headroom': case['headroom'], 'got': got, 'exc': exc})
+
+
 def _evaluate(ctx, case):
     if case['kind'] == 'path':
         eval_path(ctx, case)
+    elif case['kind'] == 'starved':
+        eval_starved(ctx, case)
     elif case['kind'] == 'twins':
         eval_twins(ctx, case)
     else:
@@ -590,6 +611,11 @@ def run(ctx):
                       maxsegs=rtw.choice([None, minsegs, minsegs + 1, 4]), rest=rtw.random() < 0.4))
         else:
             emit(dict(kind='twins', f='split_by_commas', text=join_items(segs) if rtw.random() < 0.8 else '"' + ','.join(segs)))
+
+    # ---- well-formed values split with almost no stack left
+    for headroom in range(2, 140, ctx.pick(3, 1)):
+        for items in (['a', 'b'], ['x y', 'z'], ['one', 'two,2', 'three']):
+            emit(dict(kind='starved', items=items, headroom=headroom))
 
     # ---- few items, very many commas inside the quotes (commas that are data are not separators; an internal limit
     # on the number of items counts items)
